@@ -107,8 +107,8 @@ Section WithKey.
   Definition pgt (a b : nat) : bool := (0 <? cmp (mkE a (key a)) (mkE b (key b)))%Z.
 
   (** [while (n->p != NULL && cmp(n, n->p) > 0) cstl_heap_promote_child(h, n);]
-      running out of [fuel] (64 > any depth below 2^32 nodes) is reported as
-      [Flt] *)
+      [fuel] only bounds the recursion (the callers pass the number of nodes,
+      which is at least the depth); running out of it is reported as [Flt] *)
   Fixpoint p_sift_up (fuel : nat) (m : pmem) (root : option nat) (n : nat)
     : res (pmem * option nat) :=
     match np (m n) with
@@ -137,7 +137,7 @@ Section WithKey.
       | Ok (Some pa) =>
         let m1 := setp m0 n (Some pa) in                  (* n->p = find(...) *)
         let m2 := if psize h mod 2 =? 0 then setr m1 pa (Some n) else setl m1 pa (Some n) in
-        match p_sift_up 64 m2 (proot h) n with
+        match p_sift_up (N.to_nat (psize h)) m2 (proot h) n with
         | Flt => Flt
         | Ok (m3, root3) => Ok (mkPH m3 root3 (wrap64 (psize h + 1)))
         end
@@ -184,7 +184,7 @@ Section WithKey.
           let m2 := pupd m1 n (m1 r1) in                  (* *n = *h->bt.root; *)
           let m3 := match nl (m2 n) with Some x => setp m2 x (Some n) | None => m2 end in
           let m4 := match nr (m3 n) with Some x => setp m3 x (Some n) | None => m3 end in
-          match p_sift_down 64 m4 (Some n) n with         (* h->bt.root = n; loop *)
+          match p_sift_down (N.to_nat (psize h)) m4 (Some n) n with         (* h->bt.root = n; loop *)
           | Flt => Flt
           | Ok (m5, root5) => Ok (mkPH m5 root5 sz, Some top)
           end
@@ -207,7 +207,7 @@ Section WithKey.
   Definition p_clear (h : pheap) : list nat * pheap :=
     match proot h with
     | None => ([], h)
-    | Some _ => (p_post 64 (pm h) (proot h), mkPH (pm h) None 0)
+    | Some _ => (p_post (N.to_nat (psize h)) (pm h) (proot h), mkPH (pm h) None 0)
     end.
 
   (** same operations as HeapModel.step; the "element already linked"
